@@ -384,6 +384,22 @@ for _k, _t in _MORE.items():
 for _k in ("C01", "C03", "C06", "C07", "C13", "C14", "C15", "C17", "C20"):
     SPECS[_k]["level_note"] = SPECS[_k].get("level_note", "") + " " + RACE_NOTE
 
+SPECS["C10"] = {
+    "level": "model_checking",
+    "groups": [dict(PARSER, entries=[
+        {"name": "VerifC10_TypeNames", "quick": {"params": [0, 4, 15, 16, 18], "procs": 5}, "thorough": {"params": list(range(22)), "procs": 11}},
+        {"name": "VerifC10_Struct", "quick": {"params": [0, 4], "procs": 2}, "thorough": {"params": list(range(18)), "procs": 9}},
+        {"name": "VerifC10_Enum", "quick": {"params": [0, 1], "procs": 2}, "thorough": {"params": [0, 1, 2], "procs": 3}},
+        {"name": "VerifC10_Service", "quick": {"params": [0], "procs": 1}, "thorough": {"params": [0, 1, 2, 3, 4, 5], "procs": 6}},
+        {"name": "VerifC10_Scope", "quick": {"params": [0, 3, 4, 5], "procs": 4}, "thorough": {"params": [0, 1, 2, 3, 4, 5], "procs": 6}},
+        {"name": "VerifC10_Identifier", "quick": {"params": [0, 2], "bound": 0, "procs": 2}, "thorough": {"params": [0, 1, 2, 3, 4, 5, 6], "bound": 1, "procs": 7, "timeout": 6000}},
+    ])],
+    "level_text": "BOUNDED. The real generated PEG parser (Parse of compiler/parser/grammar.peg.go: the pigeon matcher, its memoisation and every semantic action, executed from go/ssa) on programs RENDERED by the harness from a small model, with the lexical style and identifier shapes chosen by the engine; z3 decides the branches on symbolic characters. For every rendered program parsing must succeed and the returned model must be exactly the rendered one: (1) a type name of 22 shapes (plain, qualified, underscores, and names that START WITH a keyword: stringy, i32x, booleanish, binaryData, doubles, byteBuf, i16s, i64_t, mapper, listing, settings, voidish, requiredThing, optionalThing, onewayTicket, throwsIt, extendsIt, prefixed) at 8 sites (field, list / map element, typedef target, constant type, return type, argument types incl. optional, throws, scope operation); (2) struct / union / exception with three fields: ids from 3 sets, every rotation of requiredness and of six field types (scalars, list, map, set, qualified name), union members forced optional; (3) enums of 2..4 values with every explicit / implicit mask and explicit numbers from {0,1,5,40}: Thrift's implicit numbering; (4) services with extends in {none, Base, inc.Base}, 1..2 methods, every rotation of {oneway void, void, typed}, 0..2 arguments, 0..2 exceptions (made optional by the parser); (5) scopes with six prefixes (none, literals, variables incl. one-letter and underscore names, a '-' in a literal part) and 1..2 operations; (6) EVERY identifier made of a fixed prefix (none, X, str, i3, voi, requir, onewa) plus 1 (thorough 2) arbitrary identifier characters (symbolic bytes), declared as a struct and used as a field type. Lexical variation in every program: the separator after each item cycles through ',' ';' nothing from a chosen start, four styles of gap / comment ('', '// c', '# c', '/* c */'). Outside: include resolution and caching (file I/O), validate() (C11), constants' values, annotations, doc comments, the JSON generator as a second view, programs larger than these, the inverse direction (texts that must be REJECTED).",
+    "level_note": "Trusted: go/ssa, gose interpreter (regexp and unicode tables run from their real SSA), z3; the renderer in the harness is the oracle's source of truth.",
+    "bounds": {"quick": "5 of the 22 type-name shapes (plain, stringy, voidish, requiredThing, onewayTicket), 2 of 18 struct rotations, enums of 2..3 values, one-method services without extends, 4 of 6 prefixes, identifiers with one symbolic character after 2 of the 7 prefixes", "thorough": "all shapes and rotations; identifiers with two symbolic characters after all 7 prefixes"},
+    "assumptions": [],
+}
+
 HTMLGEN = {"dir": REPO + "/compiler/generator/html", "overlay": "html"}
 
 SPECS["C19"] = {
@@ -413,5 +429,4 @@ OVERLAYS = {}
 HOOK_COMMITS = []
 
 NOT_APPLICABLE = {
-    "C10": "The property is about the pigeon-generated PEG interpreter applied to arbitrary IDL text and a render/parse round trip for which no renderer exists; the recogniser (rule tables built in init, backtracking matcher over interface{} stacks, regexp, strconv.Unquote) has no bounded SMT encoding within reach and path-by-path symbolic execution explodes at every ordered choice. See DESIGN.md §7.",
 }
